@@ -226,11 +226,19 @@ spif_ustr_init_from_fp(spif_ustr_t self, FILE *fp)
     self->size = buff_inc;
     self->len = 0;
     self->s = (spif_charptr_t) MALLOC(self->size);
+    /* Nothing read yet.  (fgets() stores nothing at all at end of file.) */
+    *(self->s) = 0;
 
-    for (p = self->s; fgets((char *)p, buff_inc, fp); p += buff_inc) {
+    for (p = self->s; fgets((char *)p, buff_inc, fp);) {
         if (!(end = (spif_charptr_t)strchr((const char *)p, '\n'))) {
+            /* No newline yet.  Continue right behind what has been read so
+               far (at most buff_inc - 1 characters per call), in the buffer
+               as REALLOC() returns it. */
+            spif_ustridx_t n = (spif_ustridx_t) (p - self->s) + (spif_ustridx_t) strlen((const char *)p);
+
             self->size += buff_inc;
             self->s = (spif_charptr_t) REALLOC(self->s, self->size);
+            p = self->s + n;
         } else {
             *end = 0;
             break;
